@@ -333,6 +333,19 @@ func genC08(cs *CaseSet, rng *Rng, tier string, dir string) {
 					name = "g" + name[1:]
 				}
 			}
+			// every fourth name carries characters outside ASCII: on disk in UTF-8, in the request in Mac Roman
+			// (e-acute 0x8e, u-diaeresis 0x9f); the header sent must frame itself correctly for those too
+			reqName := []byte(name)
+			if n%4 == 0 {
+				if len(name) > 200 {
+					name = name[len(name)-200:]
+					if name[0] == '.' || name[0] == ' ' {
+						name = "g" + name[1:]
+					}
+				}
+				reqName = append([]byte("caf\x8e men\x9f "), name...)
+				name = "caf\u00e9 men\u00fc " + name
+			}
 			data := patBytes(size, byte(n))
 			must(os.WriteFile(filepath.Join(env.FileRoot, name), data, 0644))
 			hasInfo, hasRsrc := rng.Intn(3) == 0, rng.Intn(3) == 0
@@ -365,7 +378,7 @@ func genC08(cs *CaseSet, rng *Rng, tier string, dir string) {
 			if preview {
 				resuming, off = false, 0
 			}
-			fields := []hotline.Field{hotline.NewField(hotline.FieldFileName, []byte(name))}
+			fields := []hotline.Field{hotline.NewField(hotline.FieldFileName, reqName)}
 			if resuming {
 				rd := hotline.NewFileResumeData([]hotline.ForkInfoList{*hotline.NewForkInfoList(be32(off))})
 				b, _ := rd.BinaryMarshal()
